@@ -554,6 +554,11 @@ func c19Scenarios() []scenario {
 		}},
 		// a program with nested loops: its loop ids are drawn one by one while another Compile is under way
 		compileOnly("S12 Compile(nested loops) || Compile(loops) || Compile(no loop)", srcNestedLoops, "find all at least 1 'a' maybe 'b'", "find all 'a'"),
+		// process code with nested loops beside a source whose `break` stands outside any loop (it must keep being rejected)
+		compileOnly("S13 Compile(nested process loops) || Compile(break outside a loop) || Compile(loop in a predicate)",
+			"set f to transform set i to 0 loop set i to i + 1 loop if i > 2 then break end set i to i + 1 end if i > 5 then break end end return i end\nreplace all 'a' with f",
+			"set g to transform if matchLength > 1 then break end return 'x' end\nreplace all 'a' with g",
+			"set p to pattern 'a' begin set n to 0 loop set n to n + 1 if n > 1 then break end continue end return n == 2 end\nfind all p"),
 		compileOnly("S1 Compile(groups) || Compile(groups)", srcGroupsA, srcGroupsB),
 		compileOnly("S2 Compile(groups) || Compile(no groups)", srcGroupsB, srcPlain),
 		compileOnly("S6 Compile || Compile || Compile", srcGroupsA, srcGroupsB, srcGroupsA),
